@@ -29,7 +29,7 @@ let rec normalize b (s, e) =
 
 let flag_name = function NoOp -> "NoOp" | AddOne -> "AddOne" | SubOne -> "SubOne"
 
-(* the answer the as-is model (Float/Model.v) predicts, as tokens "sig exp flag" *)
+(* the answer the as-is model (Float/Model.v, Float/AddModel.v) predicts, as tokens "sig exp flag" *)
 let asis_answer b p m op args =
   (* Repr::new normalises its operands *)
   let nz i = normalize b (z (List.nth args i), z (List.nth args (i + 1))) in
@@ -37,13 +37,37 @@ let asis_answer b p m op args =
   let show ap = match ap with
     | AExact (s, e) -> let (s, e) = normalize b (s, e) in hx s ^ " " ^ hx e ^ " Exact"
     | AInexact (s, e, r) -> let (s, e) = normalize b (s, e) in hx s ^ " " ^ hx e ^ " " ^ flag_name r in
+  let showv (s, e) = let (s, e) = normalize b (s, e) in hx s ^ " " ^ hx e ^ " NoFlag" in
+  (* the answer must not depend on the digit estimate: exact estimate and estimate + 1 are both run *)
+  let both f g = let r = show (f b p m (a 3) (a 4) (a 5) (a 6)) in
+    if show (g b p m (a 3) (a 4) (a 5) (a 6)) = r then Some r else Some ("estimate-dependent " ^ r) in
+  let opv f sg = Some (showv (f b p p m (a 3) (a 4) (a 5) (a 6) sg)) in
   match op with
   | "mul" -> Some (show (ctx_mul b p m (a 3) (a 4) (a 5) (a 6)))
   | "sqr" -> Some (show (ctx_sqr b p m (a 3) (a 4)))
   | "cubic" -> Some (show (ctx_cubic b p m (a 3) (a 4)))
   | "div" -> (match repr_div b p m (a 3) (a 4) (a 5) (a 6) with Ok ap -> Some (show ap) | _ -> None)
   | "inv" -> (match repr_div b p m Zar.one Zar.zero (a 3) (a 4) with Ok ap -> Some (show ap) | _ -> None)
+  | "add" -> both ctx_add_x ctx_add_x1
+  | "sub" -> both ctx_sub_x ctx_sub_x1
+  | "add_vv" | "add_assign" -> opv add_val_val_x Positive
+  | "add_vr" -> opv add_val_ref_x Positive
+  | "add_rv" -> opv add_ref_val_x Positive
+  | "add_rr" -> opv add_ref_ref_x Positive
+  | "sub_vv" | "sub_assign" -> opv add_val_val_x Negative
+  | "sub_vr" -> opv add_val_ref_x Negative
+  | "sub_rv" -> opv add_ref_val_x Negative
+  | "sub_rr" -> opv add_ref_ref_x Negative
+  | "sqrt" -> (match ctx_sqrt b p m (a 3) (a 4) with Ok ap -> Some (show ap) | _ -> None)
+  | "fsqrt" -> (match ctx_sqrt b p m (a 3) (a 4) with Ok ap -> Some (showv (approx_val ap)) | _ -> None)
   | _ -> None
+
+(* alignment branch of an addition / subtraction, for the coverage histogram *)
+let add_path_of b p base_op args =
+  if base_op <> "add" && base_op <> "sub" then "" else
+  let nz i = normalize b (z (List.nth args i), z (List.nth args (i + 1))) in
+  let (s1, e1) = nz 3 and (s2, e2) = nz 5 in
+  " path=" ^ Zar.to_string (add_path b p s1 e1 s2 e2 (if base_op = "add" then Positive else Negative))
 
 let strip op = match String.index_opt op '_' with Some i -> String.sub op 0 i | None -> op
 
@@ -78,6 +102,7 @@ let judge op args got =
           let fid = match asis_answer b p m op args with
             | Some want -> if want = s ^ " " ^ e ^ " " ^ f then " asis=same" else " asis=diff"
             | None -> "" in
+          let fid = fid ^ add_path_of b p op args in
           if ok then pass ~extra:("cls=" ^ cls ^ fid) ()
           else begin
             (* diagnose: the correctly rounded p-digit result, for the replay *)
